@@ -97,6 +97,10 @@ func c18Invocations(a *Abs, full bool) []inv {
 	// ids
 	ids := idPool(a)
 	ids = append(ids, taggedArg{"", []string{"arg:empty", "arg-invalid"}}, taggedArg{"zz", []string{"id-malformed", "arg-invalid"}}, taggedArg{"HEAD", []string{"id-malformed", "arg-invalid"}}, taggedArg{"main", []string{"id-malformed", "arg-invalid"}})
+	if tip := a.Tip(); isHex40(tip) {
+		// abbreviated ids: a prefix that exists, one whose fan-out directory exists but that matches nothing
+		ids = append(ids, taggedArg{tip[:7], []string{"id-malformed", "arg-invalid"}}, taggedArg{tip[:2] + "0000", []string{"id-malformed", "arg-invalid"}}, taggedArg{tip[:6] + "f", []string{"id-malformed", "arg-invalid"}})
+	}
 	for i := range ids {
 		if hasTag(ids[i].tags, "id-malformed") || hasTag(ids[i].tags, "id:unknown") {
 			ids[i].tags = append(ids[i].tags, "arg-invalid")
@@ -254,7 +258,7 @@ var c18After sync.Map
 
 func checkC18(e *RunEnv) *CheckResult {
 	odd := append(seedS0(), Write("a(b", "x\n"), Write("x y", "x\n"), Write("d/x", "x\n"), Write("a+b", "x\n"), Write("é", "x\n"), Run("add", "a(b", "x y", "d", "a+b", "é"), Run("commit", "-m", "odd names"), Delete("a+b"))
-	seeds := append(allSeeds(), Seed{"odd-names", odd}, Seed{"dir-replaced-by-file", append(seedS1(), Rmdir("d"), Write("d", "now a file\n"))}, Seed{"file-replaced-by-dir", append(seedS1(), Write("a/u", "untracked inside a former file\n"))}, Seed{"mixed-case-branches", append(seedS1(), Run("branch", "C"), Run("branch", "d"), Run("branch", "Ab"))}, Seed{"ignore-lines-that-are-no-patterns", append(seedS1(), Write(".goitignore", "a(\n[\n*tmp/\n+x\n**/build/\nc++/\n"), Write("n", "new\n"), Write("tmp/f", "f\n"), Write("build/o", "o\n"))}, Seed{"no-repo", []Step{Write("a", "x\n")}}, Seed{"init-only", []Step{Run("init")}})
+	seeds := append(allSeeds(), Seed{"odd-names", odd}, Seed{"dir-replaced-by-file", append(seedS1(), Rmdir("d"), Write("d", "now a file\n"))}, Seed{"file-replaced-by-dir", append(seedS1(), Write("a/u", "untracked inside a former file\n"))}, Seed{"mixed-case-branches", append(seedS1(), Run("branch", "C"), Run("branch", "d"), Run("branch", "Ab"))}, Seed{"last-entry-deleted", append(seedS1(), Delete("d/x"), Write("zz", "untracked, sorts last\n"))}, Seed{"ignore-lines-that-are-no-patterns", append(seedS1(), Write(".goitignore", "a(\n[\n*tmp/\n+x\n**/build/\nc++/\n"), Write("n", "new\n"), Write("tmp/f", "f\n"), Write("build/o", "o\n"))}, Seed{"no-repo", []Step{Write("a", "x\n")}}, Seed{"init-only", []Step{Run("init")}})
 	spec := &Spec{Seeds: seeds, Depth: 0}
 	var ncase, nbases int
 	var module string
